@@ -219,6 +219,26 @@ func genEnv(r *Rng, g *gCmd, consistent bool, distinct bool, small bool) string 
 		}
 		parts = append(parts, f.Name+"="+vals[f.Name])
 	}
+	// 4. the AndX block of an AndX command, set through SetAndX in two cases out of three (otherwise Marshal
+	// creates the default one): any command byte, reserved mostly 0, offsets with equal and with different bytes
+	if g.IsAndX && r.Intn(3) != 0 {
+		cmd := r.Pick(0xFF, 0x04, 0x2e, 0x75, r.Intn(256))
+		rsv := 0
+		if r.Intn(4) == 0 {
+			rsv = r.Intn(256)
+		}
+		var off uint64
+		switch r.Intn(4) {
+		case 0:
+			b := uint64(r.Intn(256))
+			off = b<<8 | b // both bytes equal: byte order is invisible
+		case 1:
+			off = uint64(r.Pick(0, 1, 0x00ff, 0x0100, 0xff00, 0xffff))
+		default:
+			off = randIntBits(r, 16, distinct)
+		}
+		parts = append(parts, fmt.Sprintf("%s=l:%d,%d,%d", andxFieldName, cmd, rsv, off))
+	}
 	if len(parts) == 0 {
 		return "."
 	}
